@@ -633,8 +633,9 @@ type c17ValueTmpl struct {
 // assignment lines over at most nvars variables.  Canonical: variables are
 // numbered in order of first occurrence (assigned variable first, then the
 // reference), literal "a" occurs before "b".  mode selects the value set:
-//   full:    a  b  ${Vj}  a${Vj}   (j any variable, including the assigned one)
-//   reduced: a  b  ${Vj}
+//
+//	full:    a  b  ${Vj}  a${Vj}   (j any variable, including the assigned one)
+//	reduced: a  b  ${Vj}
 func c17Enumerate(n, nvars int, ops []string, full bool, emit func(c17Prog)) {
 	var tmpls []c17ValueTmpl
 	tmpls = append(tmpls, c17ValueTmpl{0, -1}, c17ValueTmpl{1, -1})
@@ -803,7 +804,7 @@ func c17UnitShard(ctx *Ctx, res *Result, spec c17ShardSpec) {
 		stages = []stage{
 			{"single<=3 full", 3, c17Ops, true, false},
 			{"single=4 reduced", 4, c17Ops, false, false},
-			{"include<=3 full", 3, c17Ops, true, true},
+			{"include<=3 reduced", 3, c17Ops, false, true},
 		}
 	}
 	ord := 0
@@ -978,20 +979,20 @@ func c17Tree(root string) error {
 		"mk/compiler.mk": "_CXX_STD_VERSIONS=\tc++ c++14\n" +
 			".if ${USE_LANGUAGES:Mada} || ${USE_LANGUAGES:Mc} || ${USE_LANGUAGES:Mc99}\n.endif\n" +
 			"_COMPILERS=\tgcc clang\n_PSEUDO_COMPILERS=\tccache\n",
-		"mk/compiler/gcc.mk":            nb + ".if ${_PKGSRC_USE_FORTIFY:Mweak}\n.endif\n",
-		"mk/java-vm.mk":                 nb + "_PKG_JVMS.8=\topenjdk8 oracle-jdk8\n",
-		"mk/mysql.buildlink3.mk":        "MYSQL_VERSIONS_ACCEPTED=\t57 56\n",
-		"mk/pgsql.buildlink3.mk":        "PGSQL_VERSIONS_ACCEPTED=\t10 96\nPGSQL_TYPE?=\tpostgresql11-client\n",
-		"editors/emacs/modules.mk":      "_EMACS_VERSIONS_ALL=\temacs25 emacs21\n",
-		"doc/CHANGES-2018":              "$NetBSD$\n",
-		"doc/TODO":                      "$NetBSD$\n",
-		"licenses/2-clause-bsd":         "The 2-clause BSD license\n",
-		"licenses/gnu-gpl-v2":           "The GNU GPL, version 2\n",
-		"lang/lua54/Makefile":           nb,
-		"lang/nodejs20/Makefile":        nb,
-		"lang/php82/Makefile":           nb,
-		"lang/python312/Makefile":       nb,
-		"lang/ruby32/Makefile":          nb,
+		"mk/compiler/gcc.mk":              nb + ".if ${_PKGSRC_USE_FORTIFY:Mweak}\n.endif\n",
+		"mk/java-vm.mk":                   nb + "_PKG_JVMS.8=\topenjdk8 oracle-jdk8\n",
+		"mk/mysql.buildlink3.mk":          "MYSQL_VERSIONS_ACCEPTED=\t57 56\n",
+		"mk/pgsql.buildlink3.mk":          "PGSQL_VERSIONS_ACCEPTED=\t10 96\nPGSQL_TYPE?=\tpostgresql11-client\n",
+		"editors/emacs/modules.mk":        "_EMACS_VERSIONS_ALL=\temacs25 emacs21\n",
+		"doc/CHANGES-2018":                "$NetBSD$\n",
+		"doc/TODO":                        "$NetBSD$\n",
+		"licenses/2-clause-bsd":           "The 2-clause BSD license\n",
+		"licenses/gnu-gpl-v2":             "The GNU GPL, version 2\n",
+		"lang/lua54/Makefile":             nb,
+		"lang/nodejs20/Makefile":          nb,
+		"lang/php82/Makefile":             nb,
+		"lang/python312/Makefile":         nb,
+		"lang/ruby32/Makefile":            nb,
 		"emulators/suse131_base/Makefile": nb,
 		"cat/Makefile": nb + "\nCOMMENT=\tComment for the category\n\nSUBDIR+=\tpkg\n\n" +
 			".include \"../mk/misc/category.mk\"\n",
@@ -1018,11 +1019,11 @@ var c17PkgHead = []string{
 	"",
 }
 
-// c17Package writes a package directory whose Makefile carries the program
-// between the standard head and the final .include of bsd.pkg.mk; returns the
-// program as RedundantScope sees it (head and tail lines are "other" lines:
-// assignments to unrelated variables without references).
-func c17Package(dir string, body c17Prog) (c17Prog, error) {
+// c17PackageProgram puts the body between the standard head of a package
+// Makefile and the final .include of bsd.pkg.mk; this is the program as
+// RedundantScope sees it (head and tail lines are "other" lines: assignments to
+// unrelated variables without references, comments, the .include).
+func c17PackageProgram(body c17Prog) c17Prog {
 	var full c17Prog
 	for _, t := range c17PkgHead {
 		full = append(full, c17Line{File: 0, Raw: t})
@@ -1032,59 +1033,136 @@ func c17Package(dir string, body c17Prog) (c17Prog, error) {
 	for i := range full {
 		full[i].Lineno = 0
 	}
-	full = c17Number(full)
-	var mainText, incText strings.Builder
-	hasInc := false
+	return c17Number(full)
+}
+
+// a .mk file of its own: CVS id, empty line, the body
+func c17StandaloneProgram(body c17Prog) c17Prog {
+	full := append(c17Prog{{File: 0, Raw: "# $NetBSD$"}, {File: 0, Raw: ""}}, body...)
+	for i := range full {
+		full[i].Lineno = 0
+	}
+	return c17Number(full)
+}
+
+func c17FileTexts(full c17Prog) (mainText, incText string, hasInc bool) {
+	var m, n strings.Builder
 	for _, l := range full {
 		if l.File == 0 {
-			mainText.WriteString(l.Text() + "\n")
+			m.WriteString(l.Text() + "\n")
 		} else {
 			hasInc = true
-			incText.WriteString(l.Text() + "\n")
+			n.WriteString(l.Text() + "\n")
 		}
 	}
+	return m.String(), n.String(), hasInc
+}
+
+// c17WritePackage writes a package directory; Makefile and inc.mk come from the
+// program (nil: the plain fixture package).
+func c17WritePackage(dir string, full c17Prog) error {
+	if full == nil {
+		full = c17PackageProgram(nil)
+	}
+	mainText, incText, hasInc := c17FileTexts(full)
 	files := map[string]string{
-		"Makefile": mainText.String(),
+		"Makefile": mainText,
 		"DESCR":    "Package description\n",
 		"PLIST":    "@comment $NetBSD$\nbin/program\n",
 		"distinfo": "$NetBSD$\n\nBLAKE2s (distfile-1.0.tar.gz) = 1234\nSHA512 (distfile-1.0.tar.gz) = 1234\nSize (distfile-1.0.tar.gz) = 12341234\n",
 	}
 	os.Remove(filepath.Join(dir, "inc.mk"))
+	os.Remove(filepath.Join(dir, "extra.mk"))
 	if hasInc {
-		files["inc.mk"] = incText.String()
+		files["inc.mk"] = incText
 	}
 	for name, content := range files {
 		if err := c17WriteFile(filepath.Join(dir, name), content); err != nil {
-			return nil, err
+			return err
 		}
 	}
-	return full, nil
+	return nil
 }
 
-func c17RunBinary(ctx *Ctx, root, arg string) (string, error) {
+// c17RunBinary runs the real pkglint; exit status 0 and 1 are normal, anything
+// else (a Go panic exits with 2) is reported in crashed.
+func c17RunBinary(ctx *Ctx, root, arg string) (out string, crashed string, err error) {
 	cmd := exec.Command(ctx.Pkglint, "-Wall", arg)
 	cmd.Dir = root
-	out, err := cmd.CombinedOutput()
-	if ee, ok := err.(*exec.ExitError); ok && ee.ExitCode() == 1 {
-		err = nil // diagnostics were printed
+	b, err := cmd.CombinedOutput()
+	out = string(b)
+	if ee, ok := err.(*exec.ExitError); ok {
+		err = nil
+		if ee.ExitCode() != 1 || strings.Contains(out, "goroutine ") {
+			crashed = fmt.Sprintf("exit %d", ee.ExitCode())
+		}
 	}
-	return string(out), err
+	return
+}
+
+// c17BinaryCase runs the real binary on one program: as the Makefile (+ inc.mk)
+// of the package root/dir, or as a stand-alone extra.mk in that package
+// directory (a file the package does not include: CheckFileMk runs its own
+// RedundantScope on it).
+func c17BinaryCase(ctx *Ctx, root, dir string, full c17Prog, standalone bool) (c17Impl, error) {
+	var impl c17Impl
+	var out, crashed string
+	var err error
+	mainName := dir + "/Makefile"
+	if standalone {
+		mainName = dir + "/extra.mk"
+		if err = c17WritePackage(filepath.Join(root, dir), nil); err != nil {
+			return impl, err
+		}
+		text, _, _ := c17FileTexts(full)
+		if err = c17WriteFile(filepath.Join(root, mainName), text); err != nil {
+			return impl, err
+		}
+		out, crashed, err = c17RunBinary(ctx, root, mainName)
+		os.Remove(filepath.Join(root, mainName))
+	} else {
+		if err = c17WritePackage(filepath.Join(root, dir), full); err != nil {
+			return impl, err
+		}
+		out, crashed, err = c17RunBinary(ctx, root, dir)
+	}
+	if err != nil {
+		return impl, fmt.Errorf("%v: %s", err, out)
+	}
+	impl.panicked = crashed
+	impl.verdicts, _ = c17ParseDiags(full, out, func(name string) int {
+		switch name {
+		case mainName:
+			return 0
+		case dir + "/inc.mk", "inc.mk":
+			return 1
+		}
+		return -1
+	})
+	c17SortVerdicts(impl.verdicts)
+	return impl, nil
+}
+
+func c17PrepareTree(ctx *Ctx) (string, error) {
+	root := filepath.Join(ctx.Work, "c17tree")
+	if err := c17Tree(root); err != nil {
+		return "", err
+	}
+	// the fixture itself must be clean, otherwise nothing else means anything
+	if err := c17WritePackage(filepath.Join(root, "cat/pkg"), nil); err != nil {
+		return "", err
+	}
+	out, crashed, err := c17RunBinary(ctx, root, "cat/pkg")
+	if err != nil || crashed != "" || !strings.Contains(out, "Looks fine.") {
+		return "", fmt.Errorf("the real binary does not accept the base fixture: %v %s %s", err, crashed, out)
+	}
+	return root, nil
 }
 
 func c17WholeRun(ctx *Ctx, res *Result) {
-	root := filepath.Join(ctx.Work, "c17tree")
-	if err := c17Tree(root); err != nil {
+	root, err := c17PrepareTree(ctx)
+	if err != nil {
 		res.Broken = err.Error()
-		return
-	}
-	// the fixture itself must be clean, otherwise nothing below means anything
-	if _, err := c17Package(filepath.Join(root, "cat/pkg"), nil); err != nil {
-		res.Broken = err.Error()
-		return
-	}
-	out, err := c17RunBinary(ctx, root, "cat/pkg")
-	if err != nil || !strings.Contains(out, "Looks fine.") {
-		res.Broken = fmt.Sprintf("the real binary does not accept the base fixture: %v %s", err, out)
 		return
 	}
 	nruns := 120
@@ -1093,7 +1171,7 @@ func c17WholeRun(ctx *Ctx, res *Result) {
 	}
 	rng := NewRng(ctx.Seed ^ 0xc17)
 	type job struct {
-		body       c17Prog
+		full       c17Prog
 		standalone bool
 	}
 	jobs := make([]job, nruns)
@@ -1105,7 +1183,11 @@ func c17WholeRun(ctx *Ctx, res *Result) {
 		} else {
 			body = c17RandomProgram(rng)
 		}
-		jobs[i] = job{body, !body.hasInclude() && i%3 == 2}
+		if !body.hasInclude() && i%3 == 2 {
+			jobs[i] = job{c17StandaloneProgram(body), true}
+		} else {
+			jobs[i] = job{c17PackageProgram(body), false}
+		}
 	}
 	cases := make([]c17Case, nruns)
 	errs := make([]string, nruns)
@@ -1114,63 +1196,18 @@ func c17WholeRun(ctx *Ctx, res *Result) {
 		dir := fmt.Sprintf("cat/p%d", w)
 		for i := w; i < nruns; i += workers {
 			j := jobs[i]
-			var full c17Prog
-			var out string
-			var err error
-			if j.standalone {
-				// a .mk file that the package does not include: CheckFileMk runs its own RedundantScope
-				if _, err = c17Package(filepath.Join(root, dir), nil); err == nil {
-					var sb strings.Builder
-					full = append(c17Prog{{File: 0, Raw: "# $NetBSD$"}, {File: 0, Raw: ""}}, j.body...)
-					for k := range full {
-						full[k].Lineno = 0
-					}
-					full = c17Number(full)
-					for _, l := range full {
-						sb.WriteString(l.Text() + "\n")
-					}
-					err = c17WriteFile(filepath.Join(root, dir, "extra.mk"), sb.String())
-				}
-				if err == nil {
-					out, err = c17RunBinary(ctx, root, dir+"/extra.mk")
-				}
-				os.Remove(filepath.Join(root, dir, "extra.mk"))
-			} else {
-				full, err = c17Package(filepath.Join(root, dir), j.body)
-				if err == nil {
-					out, err = c17RunBinary(ctx, root, dir)
-				}
-			}
+			impl, err := c17BinaryCase(ctx, root, dir, j.full, j.standalone)
 			if err != nil {
-				errs[i] = fmt.Sprintf("%v: %s", err, out)
+				errs[i] = err.Error()
 				continue
 			}
-			var impl c17Impl
-			if strings.Contains(out, "panic:") || strings.Contains(out, "goroutine ") {
-				impl.panicked = "panic in the binary"
-			}
-			main := dir + "/Makefile"
-			if j.standalone {
-				main = dir + "/extra.mk"
-			}
-			impl.verdicts, _ = c17ParseDiags(full, out, func(name string) int {
-				switch name {
-				case main:
-					return 0
-				case dir + "/inc.mk", "inc.mk":
-					return 1
-				}
-				return -1
-			})
-			c17SortVerdicts(impl.verdicts)
 			src := "binary-package"
 			if j.standalone {
 				src = "binary-standalone-mk"
 			}
-			cases[i] = c17Case{prog: full, impl: impl, src: src}
+			cases[i] = c17Case{prog: j.full, impl: impl, src: src}
 		}
 	})
-	var ok []c17Case
 	for i, c := range cases {
 		if errs[i] != "" {
 			res.Broken = "running the real binary failed: " + errs[i]
@@ -1180,10 +1217,9 @@ func c17WholeRun(ctx *Ctx, res *Result) {
 		if len(c.impl.verdicts) > 0 {
 			res.Count("runs_with_verdicts", 1)
 		}
-		ok = append(ok, c)
 	}
-	res.Evaluations += len(ok)
-	c17Judge(ctx, res, ok, "binary")
+	res.Evaluations += len(cases)
+	c17Judge(ctx, res, cases, "binary")
 }
 
 // programs every run looks at first (DESIGN.md section 8 item 7 and relatives)
@@ -1259,8 +1295,25 @@ func replayC17(ctx *Ctx, rep map[string]any) *Result {
 		res.Broken = "replay file has no program: " + err.Error()
 		return res
 	}
-	c := c17Case{prog: p, impl: c17RunShim(p), src: "replay"}
-	c17Judge(ctx, res, []c17Case{c}, "shim")
+	layer, _ := rep["layer"].(string)
+	src, _ := rep["source"].(string)
+	c := c17Case{prog: p, src: src}
+	if layer == "binary" {
+		root, err := c17PrepareTree(ctx)
+		if err != nil {
+			res.Broken = err.Error()
+			return res
+		}
+		c.impl, err = c17BinaryCase(ctx, root, "cat/p0", p, src == "binary-standalone-mk")
+		if err != nil {
+			res.Broken = err.Error()
+			return res
+		}
+	} else {
+		layer = "shim"
+		c.impl = c17RunShim(p)
+	}
+	c17Judge(ctx, res, []c17Case{c}, layer)
 	res.Evaluations = 1
 	return res
 }
